@@ -44,13 +44,27 @@ def run(ck):
     eff = Effects(repo, cg)
     eps = entry_points(repo)
     ck.floor("modelling entry points", len(eps), 40)
+    # a documented exception is only as good as the guard it rests on: prove it on the current source
+    exc_ok = {}
+    for (qn, par), why in EXCEPTIONS.items():
+        try:
+            g = repo.find_function(qn)
+        except AnalysisError:
+            continue
+        from ..evaluator import analyse
+        from ..symeval import Config
+        outs = analyse(repo, g, Config(facts={"self.permeances": "notnone"}, inline=lambda f: False))
+        stores = [e for o in outs for e in o.events if e.kind == "attr-store"]
+        exc_ok[(qn, par)] = not stores
+        ck.ob("Q1", qn, "writes its instance only while the field it fills is still missing (never after construction)", g.loc(), not stores,
+              "; ".join("%s stores .%s" % (e.where, e.data[1]) for e in stores)[:300])
     for f in eps:
         ck.analysed_function(f)
         is_ctor = f.name == "__attrs_post_init__"
         muts = eff.external_mutations(f, allow_self_top=is_ctor)
         keep = []
         for mu, tags in muts:
-            tags = {t for t in tags if (f.qualname, t[1]) not in EXCEPTIONS or t[2] != 0}
+            tags = {t for t in tags if not ((f.qualname, t[1]) in EXCEPTIONS and exc_ok.get((f.qualname, t[1]), False)) or t[2] != 0}
             if tags:
                 keep.append((mu, tags))
             elif muts:
